@@ -453,8 +453,7 @@ class SV:
 
     def _cmp(self, o, f):
         a, b = unify(self, o)
-        if a.ty in (TStr,):
-            raise Unsupported("string ordering")
+        # strings compare lexicographically by code point in Python and in SMT-LIB (str.<, str.<=) alike
         return SV(f(a.t, b.t), TBool)
 
     def __lt__(self, o):
